@@ -184,6 +184,11 @@ func main() {
 					if !ok || p != "flag" {
 						return true
 					}
+					// flag.StringVar(&v, name, default, usage) / flag.BoolVar(...) are the same declarations
+					if (f == "StringVar" || f == "BoolVar") && len(c.Args) == 4 {
+						f = strings.TrimSuffix(f, "Var")
+						c = &ast.CallExpr{Fun: c.Fun, Lparen: c.Lparen, Args: c.Args[1:], Rparen: c.Rparen}
+					}
 					switch f {
 					case "String", "Bool":
 						if len(c.Args) != 3 {
